@@ -98,11 +98,204 @@ func (h *helper) call(req any, res any) {
 }
 
 type serverRes struct {
-	Verdict  string
-	Status   int
-	Semver   bool
-	Stored   bool
-	Statuses []int
+	Verdict    string
+	Status     int
+	Semver     bool
+	Stored     bool
+	StoredBody string
+	Statuses   []int
+}
+
+var reportMembers = map[string]bool{"Week": true, "LastWeek": true, "X": true, "Programs": true, "Config": true}
+var programMembers = map[string]bool{"Program": true, "Version": true, "GoVersion": true, "GOOS": true, "GOARCH": true, "Counters": true, "Stacks": true}
+
+// lenientReport reads the TEXT of a stored object the way a reader other than
+// encoding/json may: of a duplicated member the FIRST occurrence counts,
+// duplicated Programs arrays and Counters/Stacks objects are merged (first
+// value of a key wins); extra reports members outside the report format.
+func lenientReport(data []byte) (rep *telemetry.Report, extra bool, ok bool) {
+	dec := json.NewDecoder(strings.NewReader(string(data)))
+	dec.UseNumber()
+	rep = &telemetry.Report{}
+	tok, err := dec.Token()
+	if err != nil || tok != json.Delim('{') {
+		return rep, false, false
+	}
+	seen := map[string]bool{}
+	str := func() string { var s string; dec.Decode(&s); return s }
+	readMap := func(into map[string]int64) bool {
+		t, err := dec.Token()
+		if err != nil {
+			return false
+		}
+		if t == nil {
+			return true
+		}
+		if t != json.Delim('{') {
+			return false
+		}
+		for dec.More() {
+			k, _ := dec.Token()
+			var v json.Number
+			if err := dec.Decode(&v); err != nil {
+				return false
+			}
+			n, _ := v.Int64()
+			if _, dup := into[k.(string)]; !dup {
+				into[k.(string)] = n
+			}
+		}
+		dec.Token()
+		return true
+	}
+	for dec.More() {
+		kt, err := dec.Token()
+		if err != nil {
+			return rep, extra, false
+		}
+		k := kt.(string)
+		first := !seen[k]
+		seen[k] = true
+		switch k {
+		case "Week":
+			if v := str(); first {
+				rep.Week = v
+			}
+		case "LastWeek":
+			if v := str(); first {
+				rep.LastWeek = v
+			}
+		case "Config":
+			if v := str(); first {
+				rep.Config = v
+			}
+		case "X":
+			var v float64
+			dec.Decode(&v)
+			if first {
+				rep.X = v
+			}
+		case "Programs":
+			t, err := dec.Token()
+			if err != nil {
+				return rep, extra, false
+			}
+			if t == nil {
+				continue
+			}
+			for dec.More() {
+				if t, _ := dec.Token(); t != json.Delim('{') {
+					return rep, extra, false
+				}
+				p := &telemetry.ProgramReport{Counters: map[string]int64{}, Stacks: map[string]int64{}}
+				pseen := map[string]bool{}
+				for dec.More() {
+					ft, _ := dec.Token()
+					fk := ft.(string)
+					pfirst := !pseen[fk]
+					pseen[fk] = true
+					switch fk {
+					case "Program", "Version", "GoVersion", "GOOS", "GOARCH":
+						v := str()
+						if pfirst {
+							switch fk {
+							case "Program":
+								p.Program = v
+							case "Version":
+								p.Version = v
+							case "GoVersion":
+								p.GoVersion = v
+							case "GOOS":
+								p.GOOS = v
+							default:
+								p.GOARCH = v
+							}
+						}
+					case "Counters":
+						if !readMap(p.Counters) {
+							return rep, extra, false
+						}
+					case "Stacks":
+						if !readMap(p.Stacks) {
+							return rep, extra, false
+						}
+					default:
+						extra = true
+						var skip json.RawMessage
+						dec.Decode(&skip)
+					}
+				}
+				dec.Token()
+				rep.Programs = append(rep.Programs, p)
+			}
+			dec.Token()
+		default:
+			extra = true
+			var skip json.RawMessage
+			dec.Decode(&skip)
+		}
+	}
+	_ = reportMembers
+	_ = programMembers
+	return rep, extra, true
+}
+
+// wStored: the wire fields describing what the handler stored for a request
+func wStored(res serverRes) []string {
+	if !res.Stored {
+		return []string{"nostored"}
+	}
+	rep, extra, ok := lenientReport([]byte(res.StoredBody))
+	if !ok {
+		return []string{"stored-unreadable"}
+	}
+	return append(append([]string{"stored"}, WReport(rep)...), B(extra))
+}
+
+// rawVariant: a request BODY whose JSON text says more than its decoding into
+// the report type: a duplicated Programs member (first: a program build outside
+// the configuration, last: the report's own), a duplicated member inside a
+// program entry, or members the report format does not have.
+func rawVariant(base *telemetry.Report, ucfg *telemetry.UploadConfig) ([]byte, string) {
+	enc := func(v any) string { b, _ := json.Marshal(v); return string(b) }
+	progs := enc(base.Programs)
+	if base.Programs == nil {
+		progs = "[]"
+	}
+	head := fmt.Sprintf(`"Week":%s,"LastWeek":%s,"X":%s,"Config":%s`, enc(base.Week), enc(base.LastWeek), enc(base.X), enc(base.Config))
+	outside := &telemetry.ProgramReport{Program: "outside/prog", Version: "v9.9.9", GoVersion: "go0", GOOS: "plan9", GOARCH: "z80",
+		Counters: map[string]int64{"secret/counter": 7}, Stacks: map[string]int64{"secret/stack\nmain.f:1": 1}}
+	switch rnd.Intn(4) {
+	case 0:
+		return []byte("{" + head + `,"Programs":` + enc([]*telemetry.ProgramReport{outside}) + `,"Programs":` + progs + "}"), "dup-programs"
+	case 1:
+		if len(base.Programs) > 0 {
+			p := base.Programs[0]
+			entry := fmt.Sprintf(`{"Program":"outside/prog","Program":%s,"Version":%s,"GoVersion":%s,"GOOS":%s,"GOARCH":%s,"Counters":{"secret/counter":3},"Counters":%s,"Stacks":%s}`,
+				enc(p.Program), enc(p.Version), enc(p.GoVersion), enc(p.GOOS), enc(p.GOARCH), enc(p.Counters), enc(p.Stacks))
+			rest := ""
+			for _, q := range base.Programs[1:] {
+				rest += "," + enc(q)
+			}
+			return []byte("{" + head + `,"Programs":[` + entry + rest + "]}"), "dup-field"
+		}
+		fallthrough
+	case 2:
+		return []byte("{" + head + `,"Hostname":"build-7.corp.example","Programs":` + progs + "}"), "extra-member"
+	default:
+		if len(base.Programs) > 0 {
+			var parts []string
+			for i, q := range base.Programs {
+				e := enc(q)
+				if i == 0 {
+					e = e[:len(e)-1] + `,"Env":{"HOME":"/home/u"}}`
+				}
+				parts = append(parts, e)
+			}
+			return []byte("{" + head + `,"Programs":[` + strings.Join(parts, ",") + "]}"), "extra-program-member"
+		}
+		return []byte("{" + head + `,"Week":"1999-01-01","Programs":` + progs + "}"), "dup-week"
+	}
 }
 
 type viewRow struct {
@@ -415,6 +608,7 @@ func caseApproval() {
 		f = append(f, "up")
 		f = append(f, WReport(&base)...)
 		f = append(f, res.Verdict, I(int64(res.Status)), B(res.Semver), B(res.Stored))
+		f = append(f, wStored(res)...)
 		out.Note("uploader-report-" + res.Verdict)
 		if len(base.Programs) > 0 {
 			out.Note("uploader-report-has-programs")
@@ -428,17 +622,35 @@ func caseApproval() {
 	nv := 2 + rnd.Intn(3)
 	f = append(f, I(int64(nv)))
 	for i := 0; i < nv; i++ {
-		r, what := perturb(&base, ucfg)
-		if base.X == 0 && what != "x" && rnd.Chance(80) {
-			r.X = 0.25 // keep the perturbed item decisive
-		}
-		b, err := json.Marshal(r)
-		if err != nil {
-			panic(err)
+		var r *telemetry.Report
+		var what string
+		var b []byte
+		if rnd.Chance(20) {
+			// the body says more than its decoding
+			src := cloneReport(&base)
+			if src.X == 0 {
+				src.X = 0.25
+			}
+			b, what = rawVariant(src, ucfg)
+			r = &telemetry.Report{}
+			if err := json.Unmarshal(b, r); err != nil {
+				panic(fmt.Sprintf("raw variant does not decode: %v\n%s", err, b))
+			}
+		} else {
+			r, what = perturb(&base, ucfg)
+			if base.X == 0 && what != "x" && rnd.Chance(80) {
+				r.X = 0.25 // keep the perturbed item decisive
+			}
+			var err error
+			b, err = json.Marshal(r)
+			if err != nil {
+				panic(err)
+			}
 		}
 		res := askServer(ucfg, b)
 		f = append(f, WReport(r)...)
 		f = append(f, res.Verdict, I(int64(res.Status)), B(res.Semver), B(res.Stored))
+		f = append(f, wStored(res)...)
 		out.Note("variant-" + what + "-" + res.Verdict)
 	}
 	// the uploader's own report once more, verbatim, after the perturbed ones (the
@@ -446,6 +658,7 @@ func caseApproval() {
 	if body != nil {
 		res := askServer(ucfg, body)
 		f = append(f, "again", res.Verdict, I(int64(res.Status)), B(res.Semver), B(res.Stored))
+		f = append(f, wStored(res)...)
 		out.Note("uploader-report-again-" + strconv.Itoa(res.Status))
 	} else {
 		f = append(f, "noagain")
